@@ -342,6 +342,22 @@ def check_enumname(repo: Repo) -> List[str]:
                     has_collapse = True
                 else:
                     reps.append((a, b))
+            elif node.func.attr == "sub" and len(node.args) >= 2:
+                # re.sub("_{2,}", "_", key)   /   COMPILED.sub("_", key)
+                pat = None
+                if norm(node.func.value) == "re" and len(node.args) == 3:
+                    pat, rep_ = node.args[0], node.args[1]
+                else:
+                    d = inline.definition_of(repo, None, repo.module("genrv.tools.generate"), node.func.value)
+                    if isinstance(d, ast.Call) and norm(d.func) in ("re.compile", "compile") and d.args:
+                        pat, rep_ = d.args[0], node.args[0]
+                try:
+                    if pat is not None and ast.literal_eval(pat) in ("_{2,}", "__+", "_+", "_{2,}+") and ast.literal_eval(rep_) == "_":
+                        has_collapse = True
+                    elif pat is not None:
+                        problems.append(f"?regular-expression replacement {norm(node)}")
+                except Exception:
+                    problems.append(f"?regular-expression replacement {norm(node)}")
             elif node.func.attr == "lower":
                 has_lower = True
             elif node.func.attr == "isdigit":
